@@ -79,6 +79,10 @@ def run(ctx):
         jobs["behA2"] = lambda: beh(ctx, SPEC_A, "MC_ChannelCache", "Beh_ChannelCache_deep.cfg", "behA2", env={"VERIF_C01_MAXLEN": str(1 + ctx.seed % 2)})
     else:
         jobs["behA1"] = lambda: beh(ctx, SPEC_A, "MC_ChannelCache", "Beh_ChannelCache_thorough.cfg", "behA1", timeout=6000)
+    # named deviation (specs/ChannelCache/NOTES.md): a purge landing between the backfill query and its prepend.  The model check
+    # is expected to give the counterexample; the behaviours of the small instance are replayed on the real cache.
+    jobs["mcR"] = lambda: tlc(ctx, SPEC_A, "MC_ChannelCache", "MC_ChannelCache_purgerace.cfg", timeout=900, env=JOPT, workers=2, tag="mcR", allow_violation=True)
+    jobs["behR"] = lambda: beh(ctx, SPEC_A, "MC_ChannelCache", "Beh_ChannelCache_purgerace.cfg", "behR")
     jobs["simA"] = lambda: beh(ctx, SPEC_A, "MC_ChannelCache", "Sim_ChannelCache.cfg", "simA", num=150 if q else 3000, depth=14)
     jobs["behB"] = lambda: beh(ctx, SPEC_B, "MC_Changes", "Beh_Changes.cfg", "behB")        # every 2-write history of one document
     # ... and every 3-write history of one document over put {A} / put {A,B} / delete (create, move, delete, resurrect)
@@ -86,14 +90,20 @@ def run(ctx):
     jobs["simB"] = lambda: beh(ctx, SPEC_B, "MC_Changes", "Sim_Changes.cfg", "simB", num=10 if q else 200, depth=10)
     res = parallel(jobs)
     a = gen_a(ctx, res["behA1"] + res.get("behA2", []) + res["simA"])
+    ctx.notes.append("purge-race model (PurgeRace = TRUE): " + ("TLC gives the counterexample to PurgedNotServedAll (expected; named deviation)"
+                     if res["mcR"].inv_violated == "PurgedNotServedAll" else "NO counterexample (%s) - the deviation note is stale" % (res["mcR"].inv_violated or res["mcR"].error_text)))
+    behr = sorted(res["behR"], key=lambda b: (b["mx"], b["mn"], json.dumps(b["steps"], sort_keys=True)))
+    rbf, rtr = os.path.join(ctx.scratch, "c01r-beh.json"), os.path.join(ctx.scratch, "c01r.ndjson")
+    write_json(rbf, behr)
+    renv = {"VERIF_BEH_R": rbf, "VERIF_TRACE_OUT_R": rtr}
     b = gen_b(ctx, res["behB"] + res["behB3"], res["simB"])
     # one go test invocation (one link of the db test binary) runs both harnesses
     ctr = os.path.join(ctx.scratch, "c01c.ndjson")
     cenv = {"VERIF_TRACE_OUT_C": ctr, "VERIF_C01_CONT_ROUNDS": 2 if ctx.quick() else 8,
             "VERIF_C01_LATE_ROUNDS": 1 if ctx.quick() else 4, "VERIF_C01_LATE_GROUPS": 3 if ctx.quick() else 6}
-    rc, out = go_test(ctx, "db", "^TestVerif_C01_(ChannelCache|Changes|Continuous)$", HARNESS, env=dict(a["env"], **b["env"], **cenv),
+    rc, out = go_test(ctx, "db", "^TestVerif_C01_(ChannelCache|PurgeRace|Changes|Continuous)$", HARNESS, env=dict(a["env"], **b["env"], **cenv, **renv),
                       timeout=1800 if ctx.quick() else 7200)
-    if rc != 0 or not os.path.exists(a["tr"]) or not os.path.exists(b["tr"]) or not os.path.exists(ctr):
+    if rc != 0 or not os.path.exists(a["tr"]) or not os.path.exists(b["tr"]) or not os.path.exists(ctr) or not os.path.exists(rtr):
         raise Inconclusive("C01 harness failed:\n" + harness_failure(out))
     # the five trace validations are independent TLC runs
     vres = parallel({
@@ -102,7 +112,10 @@ def run(ctx):
         "bP": lambda: validate(ctx, SPEC_B, "Trace_Changes", "Trace_Changes_P.cfg", b["tr"], timeout=3000 if q else 12000, env=JOPT, tag="bP"),
         "bC": lambda: validate(ctx, SPEC_B, "Trace_Changes", "Trace_Changes_C.cfg", b["tr"], timeout=3000 if q else 12000, env=JOPT, tag="bC"),
         "cP": lambda: validate(ctx, SPEC_B, "Trace_Changes", "Trace_Changes_P.cfg", ctr, timeout=1500, env=JOPT, tag="cP"),
+        "rP": lambda: validate(ctx, SPEC_A, "Trace_ChannelCache", "Trace_ChannelCache_PR.cfg", rtr, timeout=1500, env=JOPT, tag="rP"),
+        "rC": lambda: validate(ctx, SPEC_A, "Trace_ChannelCache", "Trace_ChannelCache_CR.cfg", rtr, timeout=1500, env=JOPT, tag="rC"),
     })
+    check_r(ctx, behr, rtr, vres["rP"], vres["rC"])
     check_a(ctx, a, vres["aP"], vres["aC"])
     check_b(ctx, b, vres["bP"], vres["bC"])
     check_c(ctx, ctr, cenv, vres["cP"])
@@ -184,6 +197,42 @@ def check_a(ctx, a, vp, vc):
 
 def vlog(name, v, n):
     log("  TLC %-28s validated %d/%d lines%s" % (name, v.consumed if not v.inv else max(0, (v.line or 1) - 1), n, (" violated " + v.inv) if v.inv else ""))
+
+
+PURGE_KEY = "PurgedNotServed:purge-between-backfill-query-and-prepend"
+
+
+def check_r(ctx, behs, tr, vp, vc):
+    """purge-race family: only PurgedNotServed (on completed reads and on the probes), Asc, OnePerDoc, Complete are evaluated"""
+    rows = read_ndjson(tr)
+    ctx.cov["evaluations"] += len(behs)
+    races = sum(1 for b in behs if any(s["a"] == "Purge" and any(x["a"] == "ReadBegin" for x in b["steps"][:i]) and
+                                       not any(x["a"] == "ReadEnd" for x in b["steps"][:i]) for i, s in enumerate(b["steps"])))
+    ctx.cov["c01_purge_race"] = {"behaviours": len(behs), "with_purge_inside_a_split_read": races, "trace_lines": len(rows)}
+    ctx.cov["distinct_nontrivial"] += races
+    vlog("Trace_ChannelCache_PR", vp, len(rows))
+    if vp.inv:
+        line = max(1, (vp.line or 2) - 1)
+        beh_idx = locate(rows, line)
+        beh = behs[beh_idx] if beh_idx is not None else None
+        start = max(i for i, r in enumerate(rows[:line]) if r["a"] in ("Reset", "Back"))
+        purge_race = vp.inv in ("PurgedNotServed", "ProbePurgedNotServed")
+        key = PURGE_KEY if purge_race else "r:%s:%s" % (vp.inv, json.dumps(beh, sort_keys=True))
+        what = ("a document purged between the backfill query of GetChanges and its prependChanges is re-inserted into the channel cache "
+                "(validFrom lowered) and served by later reads" if purge_race else "real singleChannelCacheImpl breaks %s in the purge-race family" % vp.inv)
+        report_violation(ctx, key, "%s [%s at trace line %d, behaviour %s]" % (what, vp.inv, line, beh_idx),
+                         {"part": "ChannelCache purge race", "behaviour": beh, "invariant": vp.inv,
+                          "real_trace": [trim(r) for r in rows[start:line]]})
+        return
+    if not vp.accepted:
+        raise Inconclusive("C01 purge-race pass P stopped at line %s of %s\n%s" % (vp.line, vp.total, vp.out[-1500:]))
+    ctx.notes.append("purge-race family: PurgedNotServed held on the real cache for every behaviour (the recorded finding no longer reproduces)")
+    vlog("Trace_ChannelCache_CR", vc, len(rows))
+    if vc.inv or not vc.accepted:
+        ctx.cov["nonconformance"] += 1
+        ctx.notes.append("C01 purge-race pass C rejected at line %s (%s)" % (vc.line, vc.inv))
+    else:
+        ctx.cov["traces_validated_against_impl"] += len(behs)
 
 
 def locate(rows, line):
